@@ -6,7 +6,7 @@ BASE = dict(MaxStmts=3, MaxDepth=3, MaxUnits=1, MaxVar=1, UnitKinds="ExhUnits", 
             SimpleV="Set1", DeclV="Set1", UseV="Set1", FormatV="Set1", CompV="Set1", TbindV="Set1",
             NameChoices="Set01", EndForms="Set02", LabelStmts="FALSE", Contains="TRUE",
             PKinds="KCmt", MaxEdits=1, InsSet="InsSmall", MinEdits=0, Randomised="FALSE", DumpMod=1, NRepl=17, RichOnly="FALSE", NeedStruct="FALSE", MaxRich="<- Unlimited")
-SIM = dict(MaxStmts=30, MaxDepth=5, MaxUnits=3, MaxVar=9, UnitKinds="AllUnits", ConKinds="AllCons", SpecKinds="AllSpec",
+SIM = dict(MaxStmts=30, MaxDepth=5, MaxUnits=3, MaxVar=30, UnitKinds="AllUnits", ConKinds="AllCons", SpecKinds="AllSpec",
            SimpleV="SimpleAll", DeclV="DeclAll", UseV="UseAll", FormatV="FormatAll", CompV="CompAll", TbindV="TbindAll",
            NameChoices="Set01", EndForms="Set012", LabelStmts="TRUE", Contains="TRUE", InsSet="InsAll", MinEdits=1, Randomised="TRUE", DumpMod=1, NRepl=17, RichOnly="FALSE", NeedStruct="FALSE", MaxRich="<- Unlimited")
 TABLE = {
@@ -24,6 +24,9 @@ TABLE = {
     "Perturb_c08b_thorough": dict(BASE, PKinds="KRenCmt", MaxEdits=2, MinEdits=2, NeedStruct="TRUE", ConKinds="NestCons", MaxStmts=4, DumpMod=1, NCmtCls=3, NCppForms=4),
     "Perturb_c08_thorough": dict(BASE, PKinds="KStruct", MaxEdits=1, ConKinds="NestCons", MaxStmts=4),
     "Perturb_c08_sim": dict(SIM, PKinds="KStructCmt", MaxEdits=3),
+    # the construct kinds the first family leaves out (FORALL, ASSOCIATE, CRITICAL, SELECT TYPE, DO CONCURRENT) and TYPE / INTERFACE / ENUM definitions
+    "Perturb_c08c_quick": dict(BASE, PKinds="KStruct", MaxEdits=1, ConKinds="NestCons2", SpecKinds="AllSpec", UnitKinds="SubMod", DumpMod=23),
+    "Perturb_c08c_thorough": dict(BASE, PKinds="KStruct", MaxEdits=1, ConKinds="NestCons2", SpecKinds="AllSpec", UnitKinds="SubMod", MaxStmts=4),
     "Perturb_c13_quick": dict(BASE, PKinds="KInc", MaxEdits=2, DumpMod=32),
     "Perturb_c13_thorough": dict(BASE, PKinds="KInc", MaxEdits=2, MaxStmts=4),
     "Perturb_c13_sim": dict(SIM, PKinds="KInc", MaxEdits=3),
@@ -31,15 +34,15 @@ TABLE = {
     "Perturb_c04_thorough": dict(BASE, PKinds="KLayout1", MaxEdits=2, MaxStmts=4),
     "Perturb_c04_sim": dict(SIM, PKinds="KLayout", MaxEdits=8, MinEdits=4),
     # C06: every catalogue variant (sweep: at most one non-default variant per program) with every single mutation of that statement
-    "Perturb_c06_exec_quick": dict(BASE, MaxRich="= 1", MaxVar=9, UnitKinds="SubOnly", ConKinds="SweepCons", SpecKinds="Empty", SimpleV="SimpleAll", PKinds="KMut",
+    "Perturb_c06_exec_quick": dict(BASE, MaxRich="= 1", MaxVar=30, UnitKinds="SubOnly", ConKinds="SweepCons", SpecKinds="Empty", SimpleV="SimpleAll", PKinds="KMut",
                                    NameChoices="Set1", EndForms="Set1", Contains="FALSE", RichOnly="TRUE", DumpMod=157),
-    "Perturb_c06_decl_quick": dict(BASE, MaxStmts=3, MaxRich="= 1", MaxVar=9, UnitKinds="SweepUnits", ConKinds="Empty", SpecKinds="Empty", DeclV="DeclAll", UseV="UseAll",
+    "Perturb_c06_decl_quick": dict(BASE, MaxStmts=3, MaxRich="= 1", MaxVar=30, UnitKinds="SweepUnits", ConKinds="Empty", SpecKinds="Empty", DeclV="DeclAll", UseV="UseAll",
                                    FormatV="FormatAll", PKinds="KMut", NameChoices="Set1", EndForms="Set1", Contains="FALSE", RichOnly="TRUE", DumpMod=41),
-    "Perturb_c06_type_quick": dict(BASE, MaxStmts=4, MaxRich="= 1", MaxVar=9, UnitKinds="ModOnly", ConKinds="Empty", SpecKinds="AllSpec", CompV="CompAll", TbindV="TbindAll",
+    "Perturb_c06_type_quick": dict(BASE, MaxStmts=4, MaxRich="= 1", MaxVar=30, UnitKinds="ModOnly", ConKinds="Empty", SpecKinds="AllSpec", CompV="CompAll", TbindV="TbindAll",
                                    PKinds="KMut", NameChoices="Set1", EndForms="Set1", Contains="FALSE", RichOnly="TRUE", DumpMod=79),
-    "Perturb_c06_exec_thorough": dict(BASE, MaxRich="= 1", MaxVar=9, UnitKinds="SubOnly", ConKinds="SweepCons", SpecKinds="Empty", SimpleV="SimpleAll", PKinds="KMut",
+    "Perturb_c06_exec_thorough": dict(BASE, MaxRich="= 1", MaxVar=30, UnitKinds="SubOnly", ConKinds="SweepCons", SpecKinds="Empty", SimpleV="SimpleAll", PKinds="KMut",
                                       NameChoices="Set1", EndForms="Set1", Contains="FALSE", RichOnly="TRUE", DumpMod=5),
-    "Perturb_c06_spec_thorough": dict(BASE, MaxStmts=4, MaxRich="= 1", MaxVar=9, UnitKinds="SweepUnits", ConKinds="Empty", SpecKinds="AllSpec", DeclV="DeclAll", UseV="UseAll",
+    "Perturb_c06_spec_thorough": dict(BASE, MaxStmts=4, MaxRich="= 1", MaxVar=30, UnitKinds="SweepUnits", ConKinds="Empty", SpecKinds="AllSpec", DeclV="DeclAll", UseV="UseAll",
                                       FormatV="FormatAll", CompV="CompAll", TbindV="TbindAll", PKinds="KMut", NameChoices="Set1", EndForms="Set1", Contains="FALSE", RichOnly="TRUE", DumpMod=19),
     "Perturb_c06_sim": dict(SIM, PKinds="KMut", MaxEdits=3),
     "Perturb_c15_quick": dict(BASE, PKinds="KSent", MaxEdits=2, LabelStmts="TRUE", DumpMod=3),
